@@ -48,6 +48,19 @@ CLAIMED = {
     note=("Trusted: lianvc + encoding, z3. Assumed (hereditary, unchecked): frontend output shape (non-empty statement dicts, first key = operation, payload keys not "
           "reserved). LangAnalysis.run is not under contract."),
     design='§4 C03'),
+ 'C04': dict(
+    text=("Proof (partial: the edge-producing handlers; the induction over block structure is assumed and only bounded-checked): on the real control_flow.py, over a ghost log of "
+          "ControlFlowGraph.add_edge calls, for all frontiers, rows and iterations: link_parent_stmts_to_current_stmt issues exactly one add_edge per frontier element, in order, "
+          "with the element's own kind (EMPTY for a plain statement); analyze_return_stmt links the frontier and adds (stmt, -1, RETURN); analyze_break_stmt/analyze_continue_stmt "
+          "link the frontier, collect the statement for the enclosing loop and cut the frontier; deal_with_last_stmts_of_loop_body gives every element of the body frontier an edge "
+          "to the header (LOOP_BACK for plain statements), links every collected continue to the header with CONTINUE, returns the collected breaks followed by the normal exit "
+          "CFGNode(header, LOOP_FALSE) as LAST element (absent for a literal-true condition) and adds nothing else; analyze_while_stmt analyses the body from "
+          "[CFGNode(header, LOOP_TRUE)] with a fresh collector, an else body with the enclosing collector, and lets the else body replace exactly the normal exit; analyze_if_stmt "
+          "analyses each arm from the condition node with its branch kind; BasicGraph._add_one_edge adds the edge iff src != dst, src >= 0 and none exists, and never removes one. "
+          "analyze_block (the recursion) is ASSUMED; that every execution is a CFG path is covered only by a bounded stand-in (reported under 'bounded')."),
+    note=("Trusted: lianvc + encoding, z3; GIRBlockViewer accessors uninterpreted; networkx has_edge/add_edge as an edge relation. One genuine defect repaired by a fix: commit "
+          "(loop else bodies). Not under contract: for/do-while/switch/try/yield/decl handlers, analyze(), goto."),
+    design='§4 C04'),
  'C05': dict(
     text=("Proof (partial: the selection step and the scope corrections): on the real code, for all unit summaries and scope tables: Resolver.resolve_symbol_source_decl hands "
           "organize_return_value a scope that declares the name, is visible from the statement (available set of its scope, or an implicit root) and has the maximum id among all "
